@@ -511,3 +511,17 @@ def mutate_live(obj, c):
         return False
     raw[0] = (int(raw[0]) + 1) % n
     return True
+
+
+def tags(c, got):
+    """input distribution recorded in the evidence"""
+    t = ["op:" + c["op"]]
+    if "enc" in c:
+        t.append("enc:" + str(c["enc"]))
+    if c["op"] in ("retarget", "change", "retarget_view", "change_view"):
+        t.append("pair:" + ("predefined" if c.get("names") else "custom") + (":same" if c["src"] == c["tgt"] else ":different"))
+    if c["op"] == "enc_np":
+        t += ["array-kind:" + c["kind"], "foreign:" + ("none" if c["foreign"] is None else "NUL" if c["foreign"] == 0 else "ascii" if c["foreign"] < 128 else "non-latin")]
+    if isinstance(got, dict):
+        t.append("outcome:" + ("raises:" + str(got["err"]) if "err" in got else "returns"))
+    return t
